@@ -190,6 +190,7 @@ func modelKey(phase, key string) string {
 type traceRow struct {
 	Ev    string         `json:"ev"`
 	Src   []trsrc.Entity `json:"src,omitempty"`
+	Lay   *trsrc.Layout  `json:"lay,omitempty"`
 	Phase string         `json:"phase,omitempty"`
 	Key   string         `json:"key,omitempty"`
 	St    string         `json:"st,omitempty"`
@@ -399,6 +400,7 @@ func Run(tier, replay string) {
 		name string
 		text string
 		src  []trsrc.Entity // abstract source if the input is a TLC vector
+		lay  trsrc.Layout
 		want string
 	}
 	var inputs []input
@@ -417,9 +419,15 @@ func Run(tier, replay string) {
 		reps = 200
 	} else {
 		// (S) TLC: Deterministic on every processing order; (G) its sources
-		for _, set := range []string{"all", "perms"} {
+		// "layouts": the patterns laid out in every way (line endings, several definitions per line,
+		// indentation, comments, no final line ending; raw line breaks inside string literals)
+		for _, set := range []string{"all", "perms", "layouts"} {
 			for _, v := range trcheck.Generate(rep, set, 4) {
-				inputs = append(inputs, input{name: "vector/" + set, text: trsrc.Render(v.Src), src: v.Src, want: v.Want.St})
+				lay := v.Lay
+				if lay.ID == "" {
+					lay = trsrc.Plain
+				}
+				inputs = append(inputs, input{name: "vector/" + set, text: trsrc.RenderLay(v.Src, lay), src: v.Src, lay: lay, want: v.Want.St})
 			}
 		}
 		var files []string
@@ -503,7 +511,8 @@ func Run(tier, replay string) {
 				// only executions whose outcome the model shares are replayed (a differing
 				// outcome is C05's / C01's finding, not a statement about determinism)
 				if in.src != nil && len(set) <= 6 && st == in.want {
-					rows = append(rows, traceRow{Ev: "src", Src: normSrc(in.src)})
+					lay := in.lay
+					rows = append(rows, traceRow{Ev: "src", Src: normSrc(in.src), Lay: &lay})
 					for _, x := range e {
 						if ph, ok := phaseMap[x.Phase]; ok {
 							rows = append(rows, traceRow{Ev: "pick", Phase: ph, Key: modelKey(x.Phase, x.Key)})
@@ -546,7 +555,9 @@ func Run(tier, replay string) {
 				break
 			}
 		}
-		if i%7 == 0 || replay != "" {
+		// every entry point must see the same bytes: every laid-out input and every input with a carriage
+		// return goes through all of them
+		if i%7 == 0 || replay != "" || in.name == "vector/layouts" || strings.Contains(in.text, "\r") {
 			for ep, o := range entryPoints(dir, in.text) {
 				if o != base[i] {
 					fail("entry-point "+ep, o)
@@ -556,7 +567,8 @@ func Run(tier, replay string) {
 		// keep modules obtained through the reader and byte-slice entry points; they are printed
 		// only after everything else has been parsed (a module must not depend on the caller's
 		// buffer or on later parses)
-		if i%3 == 0 || replay != "" {
+		if (i%3 == 0 || replay != "") && base[i].Status == "ok" {
+			// (an input on which the parser crashes is C05's / C01's finding; it is not parsed unguarded here)
 			if m, err := asm.Parse("in.ll", strings.NewReader(in.text)); err == nil {
 				held = append(held, heldModule{i, "Parse(reader)", m})
 			}
